@@ -1,6 +1,6 @@
 (* C14 — read-only and copy-making operations leave a template unchanged.
    Statements only; every proof is `exact <lemma of MutationProofs>` or a computed witness.
-   `mstep` / `mrun` = the code as it is: mstep_gen fixed_state_carry fixed_shared_edge_dicts = mstep_gen true false. *)
+   `mstep` / `mrun` = the code as it is: mstep_gen fixed_state_carry fixed_shared_edge_dicts = mstep_gen true true. *)
 From Coq Require Import List String ZArith QArith Qcanon Bool Arith.
 From PV Require Import Heap Values ValuesProofs Mutation MutationProofs.
 Import ListNotations.
@@ -10,8 +10,7 @@ Open Scope nat_scope.
    OperatorTemplate.update_template, loading a derived template, get_run_func / get_jacobian_func / run with in_place=False)
    called on the template r, EVERY template c (of any depth d') that had a denotation before — r itself, its sub-circuits,
    templates sharing nodes or operators with it — has the same denotation (equations, defaults, per-node values,
-   connectivity).  The only exception is the composite derive-and-edit operation (finding C14-shared-edge-dicts), unless
-   the edge dictionaries are unshared (fe = true, the proposed repair). *)
+   connectivity).  (For the mechanism before fix D82, fe = false, the derive-and-edit operation has to be excluded.) *)
 Theorem C14_frame_each_operation : forall fx fe d r s o, fe = true \/ is_derive_edit o = false ->
   forall d' c t, abs d' (fst s) c = Some t -> abs d' (fst (fst (mstep_gen fx fe d r s o))) c = Some t.
 Proof. exact frame_step. Qed.
@@ -28,18 +27,12 @@ Print Assumptions C14_frame_any_sequence.
 Definition C14_full_statement (fixed fixed_e : bool) : Prop := forall d r t ops h, abs d h r = Some t ->
   snd (mrun_gen fixed fixed_e d r (h, book0) ops) = map (mstepS d t) ops.
 
-(* Headline (the code as it is, after fix D74): the full statement for every sequence of the listed operations — any
-   interleaving of compiles and runs with both vectorize settings included; the former guard no_state_carry is gone.
-   The only remaining hypothesis excludes the derive-and-edit operation of finding C14-shared-edge-dicts. *)
-Theorem C14_full : forall d r t ops h, abs d h r = Some t -> no_derive_edit ops = true ->
-  snd (mrun d r (h, book0) ops) = map (mstepS d t) ops.
-Proof. exact outputs_refine_now. Qed.
+(* Headline (the code as it is, after fixes D74 and D82): the full statement for EVERY sequence of the listed operations —
+   any interleaving of compiles and runs with both vectorize settings, and deriving a template and editing its edges
+   included; no hypothesis besides the existence of the denotation. *)
+Theorem C14_full : C14_full_statement fixed_state_carry fixed_shared_edge_dicts.
+Proof. exact outputs_refine_head. Qed.
 Print Assumptions C14_full.
-
-(* with the proposed repair of the shared edge dictionaries: no hypothesis at all *)
-Theorem C14_full_when_edge_dicts_unshared : C14_full_statement true true.
-Proof. exact outputs_refine_all. Qed.
-Print Assumptions C14_full_when_edge_dicts_unshared.
 
 Theorem C14_deepcopy_only_appends : forall d h m c h2 m2 c', copy_circ d h m c = Some (h2, m2, c') -> extends h h2.
 Proof. exact copy_circ_extends. Qed.
@@ -53,16 +46,16 @@ Definition w_heap : heap :=
    OCirc [("A"%string, 1); ("B"%string, 1); ("C"%string, 2)] [("A/op/x"%string, "B/op/u"%string, [("weight"%string, Sc (mkq 2 1))])];
    OCirc [("c1"%string, 3)] []].
 
-(* finding C14-shared-edge-dicts: d = c.update_template(nodes={..}) (no edges, not in place); d.update_var(edge_vars=[(A->B, 64)])
-   changes the weight of A->B on the BASE template c as well: get_edge on c returns 64 (specification: 2) *)
+(* regression of the former finding C14-shared-edge-dicts (repaired by D82): d = c.update_template(nodes={..}) (no edges, not
+   in place); d.update_var(edge_vars=[(A->B, 64)]); get_edge on the BASE template c still returns weight 2.  Before the fix
+   (fixed_e = false) it returned 64. *)
 Definition sed_ops : list mop :=
   [MDeriveEdit "A/op/x" "B/op/u" [("weight"%string, Sc (mkq 64 1))]; MRead (QEdge "A/op/x" "B/op/u")].
-Theorem C14_shared_edge_dicts_refuted : ~ C14_full_statement true false.
-Proof.
-  intros H. destruct (abs 0 w_heap 3) as [t|] eqn:E; [|vm_compute in E; discriminate].
-  specialize (H 0 3 t sed_ops w_heap E). vm_compute in E. injection E as <-. vm_compute in H. discriminate.
-Qed.
-Print Assumptions C14_shared_edge_dicts_refuted.
+Example C14_shared_edge_dicts_regression :
+  snd (mrun 0 3 (w_heap, book0) sed_ops) = [RDone; REdge (Some [("weight"%string, Sc (mkq 2 1))])] /\
+  snd (mrun_gen true false 0 3 (w_heap, book0) sed_ops) = [RDone; REdge (Some [("weight"%string, Sc (mkq 64 1))])].
+Proof. split; vm_compute; reflexivity. Qed.
+Print Assumptions C14_shared_edge_dicts_regression.
 
 (* regression of the former finding C14-state-carry (repaired by D74).  Now: run then get_run_func starts from the declared
    initial values, get_run_func then run succeeds, the vectorize setting may change.  Before the fix (fixed = false): the
@@ -77,15 +70,14 @@ Proof. repeat split; vm_compute; reflexivity. Qed.
 Print Assumptions C14_state_carry_regression.
 
 (* non-vacuity: a hierarchical template (root 4 -> c1 = circuit 3) with a shared NodeTemplate and a per-node override;
-   getters, deepcopy, a derived operator, update_template, to_yaml, a run, a compile and another run: the guard holds,
+   getters, deepcopy, a derived operator, update_template, derive-and-edit, to_yaml, a run, a compile and another run:
    all templates keep their denotation, the store did grow (copies were made) *)
 Definition nv_ops : list mop :=
   [MRead (QNodes ["all"%string; "all"%string]); MRead QEdges; MDeepcopy; MNewObject (OOp "op" ["d/dt * x = k + u"%string] []);
    MUpdateTemplate [("c1/C/op/x"%string, "c1/A/op/u"%string, [])];
-   MToYaml; MRun false; MRead (QNodeTemplate ["c1"%string; "C"%string]); MCompile false true; MRun true; MObserve].
+   MDeriveEdit "c1/A/op/x" "c1/B/op/u" []; MToYaml; MRun false; MRead (QNodeTemplate ["c1"%string; "C"%string]); MCompile false true; MRun true; MObserve].
 Example C14_nonvacuous :
-  no_derive_edit nv_ops = true /\
   (exists t, abs 1 w_heap 4 = Some t /\ abs 1 (fst (fst (mrun 1 4 (w_heap, book0) nv_ops))) 4 = Some t) /\
   List.length w_heap < List.length (fst (fst (mrun 1 4 (w_heap, book0) nv_ops))).
-Proof. split; [vm_compute; reflexivity|]. split; [eexists; split; vm_compute; reflexivity|apply Nat.ltb_lt; vm_compute; reflexivity]. Qed.
+Proof. split; [eexists; split; vm_compute; reflexivity|apply Nat.ltb_lt; vm_compute; reflexivity]. Qed.
 Print Assumptions C14_nonvacuous.
